@@ -286,8 +286,52 @@ pub fn build(spec: &Value) -> Model {
             };
             Model::Uv(UVTheory::with_options(Arc::new(syn_params::<UVTheoryParameters>(recs, &mw, spec)), o))
         }
-        "saftvrmie" => Model::VrMie(SaftVRMie::new(Arc::new(params::<SaftVRMieParameters>(spec)))),
-        "saftvrqmie" => Model::VrqMie(SaftVRQMie::new(Arc::new(params::<SaftVRQMieParameters>(spec)))),
+        "saftvrmie" => {
+            let p = if spec["syn"].is_null() {
+                params::<SaftVRMieParameters>(spec)
+            } else {
+                // [m, sigma, epsilon_k, lr, la, mw]
+                let s = syn(spec);
+                let recs: Vec<_> = s.iter().map(|r| feos::saftvrmie::SaftVRMieRecord::new_simple(r[0], r[1], r[2], r[3], r[4])).collect();
+                let mw: Vec<f64> = s.iter().map(|r| r[5]).collect();
+                syn_params::<SaftVRMieParameters>(recs, &mw, spec)
+            };
+            Model::VrMie(SaftVRMie::new(Arc::new(p)))
+        }
+        "saftvrqmie" => {
+            let p = if spec["syn"].is_null() {
+                params::<SaftVRQMieParameters>(spec)
+            } else {
+                // [m, sigma, epsilon_k, lr, la, mw] with Feynman-Hibbs order spec["fh"]
+                let s = syn(spec);
+                let fh = spec["fh"].as_u64().unwrap_or(0) as usize;
+                let recs: Vec<_> = s
+                    .iter()
+                    .map(|r| feos::saftvrqmie::SaftVRQMieRecord::new(r[0], r[1], r[2], r[3], r[4], fh, None, None, None).unwrap())
+                    .collect();
+                let mw: Vec<f64> = s.iter().map(|r| r[5]).collect();
+                syn_params::<SaftVRQMieParameters>(recs, &mw, spec)
+            };
+            Model::VrqMie(SaftVRQMie::new(Arc::new(p)))
+        }
+        // homosegmented group contribution: Parameter::from_json_segments (combining rules) ...
+        "pcsaft_homogc" => {
+            let src = sources(spec);
+            let subs: Vec<&str> = src[0].0.iter().map(|x| x.as_str()).collect();
+            let seg = format!("{}{}", PARAM_ROOT, spec["segments"].as_str().expect("segments"));
+            let p = PcSaftParameters::from_json_segments(&subs, src[0].1.clone(), seg, None::<String>, IdentifierOption::Name).expect("from_json_segments");
+            Model::PcSaft(PcSaft::new(Arc::new(p)))
+        }
+        // ... versus the molecule built from the combined record (records() of the former, fed to from_records)
+        "pcsaft_homogc_records" => {
+            let src = sources(spec);
+            let subs: Vec<&str> = src[0].0.iter().map(|x| x.as_str()).collect();
+            let seg = format!("{}{}", PARAM_ROOT, spec["segments"].as_str().expect("segments"));
+            let p = PcSaftParameters::from_json_segments(&subs, src[0].1.clone(), seg, None::<String>, IdentifierOption::Name).expect("from_json_segments");
+            let (pure, bin) = p.records();
+            let p2 = PcSaftParameters::from_records(pure.to_vec(), bin.cloned()).expect("from_records");
+            Model::PcSaft(PcSaft::new(Arc::new(p2)))
+        }
         "saftvrqmie_fun" => Model::VrqFun(SaftVRQMieFunctional::new_full(Arc::new(params::<SaftVRQMieParameters>(spec)), fmt_version(spec))),
         "fmt_fun" => {
             let s = syn(spec);
